@@ -110,6 +110,8 @@ def cp_apr(  # noqa: PLR0913
                 assert False, f"Mode {n} of the initial guess is the wrong size"
             if np.min(init.factor_matrices[n]) < 0.0:
                 assert False, f"Initial guess has negative element in mode {n}"
+        # Work on a copy: the solvers touch zero rows of the guess and hand it back
+        init = init.copy()
         if np.min(init.weights) < 0:
             assert False, "Initial guess has a negative ktensor weight"
 
